@@ -47,6 +47,9 @@ CANDS = {
 CANDS_DEEP = dict(CANDS)
 CANDS_DEEP.update({"r/a/x/y": "dir", "r/a/x/y/v.py": "file", "r/a/x/y/vv.py": "file"})
 
+CANDS_BIG = dict(CANDS)
+CANDS_BIG.update({"r/c": "dir", "r/c/__init__.py": "file", "r/c/d.py": "file", "r/a/x/w.py": "file", "r/a/mm.py": "file"})
+
 LINESETS = {
     "qualified": {
         "r/a/m.py": ["import r.ab", "from r.a.x import u"],
@@ -59,6 +62,13 @@ LINESETS = {
         # written relative to module_path's parent directory (meaningful in a sub-scan only)
         "r/a/m.py": ["import a.x.u", "from x import u"],
         "r/a/x/u.py": ["from a import m", "import x.u"],
+    },
+    "big": {
+        "r/a/m.py": ["import r.c.d", "from r.a import mm"],
+        "r/a/mm.py": ["from .x import w", "import r.a.m"],
+        "r/c/d.py": ["from r.a.x import u, w"],
+        "r/a/x/w.py": ["from . import u"],
+        "r/c/__init__.py": ["from .d import thing"],
     },
     "deep": {
         "r/a/x/y/v.py": ["from . import vv", "from ... import m", "import r.a.x.u"],
@@ -185,7 +195,7 @@ def judge(model: FSModel, view, mp_rel: str, got, full=None):
 
 
 def make_model(inst) -> FSModel:
-    cands = CANDS_DEEP if inst["lines"] == "deep" else CANDS
+    cands = CANDS_DEEP if inst["lines"] == "deep" else CANDS_BIG if inst["lines"] == "big" else CANDS
     mp = inst["mp"]
     fixed = {}
     p = mp
@@ -212,6 +222,10 @@ def instances(tier: str) -> list[dict]:
             out.append({"part": "scan", "mp": mp, "entry": entry, "lines": "qualified", "relational": mp != "r", "cap": CAPS[tier]})
     for mp in ("r/a", "r/a/x"):
         out.append({"part": "scan", "mp": mp, "entry": "path", "lines": "parent-relative", "relational": False, "cap": CAPS[tier]})
+    if tier == "thorough":
+        big_fixed = {"r/notes.txt": False, "r/empty": False, "r/a_b": False}
+        for mp in ("r", "r/a", "r/c", "r/a/x"):
+            out.append({"part": "scan", "mp": mp, "entry": "path", "lines": "big", "relational": mp != "r", "fixed": big_fixed, "cap": CAPS[tier]})
     deep_fixed = {"r/ab.py": False, "r/a_b": False, "r/notes.txt": False, "r/empty": False, "r/a/__init__.py": False}
     for mp in ("r", "r/a/x", "r/a/x/y") if tier == "thorough" else ("r/a/x",):
         out.append({"part": "scan", "mp": mp, "entry": "path", "lines": "deep", "relational": mp != "r", "fixed": deep_fixed, "cap": CAPS[tier]})
